@@ -27,8 +27,8 @@ from dsim.kernel import Violation
 NAME = "e1"
 REWIRE = True
 CHUNK = 20
-RUNS = {"C01": (12000, 200000), "C06": (12000, 200000), "C09": (12000, 200000),
-        "C20": (10000, 150000)}
+RUNS = {"C01": (12000, 600000), "C06": (12000, 600000), "C09": (12000, 600000),
+        "C20": (10000, 400000)}
 RULE = ("one run = one seeded history of 5..40 public DataFrame operations on a pool of <=8 frames "
         "(<=12 rows, <=8 columns, dtypes bool/int64/float64/StringDType/fixed-width <U/date/"
         "datetime/object, 0-row / 0-column / all-missing shapes); non-trivial iff >=3 executed ops "
